@@ -74,7 +74,19 @@ pub fn scenarios() -> Vec<Scn> {
         v.push((ty, "YYYY DDD", "2021 366", Given { year: year(2021, 4, 4), doy: Some(366), ..g() }, true));
         v.push((ty, "YY-MM-DD", "2012-01-01", Given { year: year(2012, 4, 2), month: Some(1), day: Some(1), ..g() }, true));
     }
+    for ty in [Ty::Date, Ty::Ts, Ty::Ora] {
+        // a two-digit year field given four digits is a full year: no completion, no clock
+        v.push((ty, "YY-MM-DD", "0021-03-04", Given { year: year(21, 4, 2), month: Some(3), day: Some(4), ..g() }, true));
+        v.push((ty, "YY-MM-DD", "+0007-12-31", Given { year: year(7, 4, 2), month: Some(12), day: Some(31), ..g() }, true));
+        v.push((ty, "MM-DD DDD", "02-29 060", Given { month: Some(2), day: Some(29), doy: Some(60), ..g() }, false));
+        v.push((ty, "DDD", "59", Given { doy: Some(59), ..g() }, false));
+        v.push((ty, "DDD", "61", Given { doy: Some(61), ..g() }, false));
+    }
     for ty in [Ty::Ts, Ty::Ora] {
+        // a meridian without an hour field: the omitted 12-hour field is 12
+        v.push((ty, "PM", "PM", Given { pm: Some(true), ..g() }, false));
+        v.push((ty, "AM", "am", Given { pm: Some(false), ..g() }, false));
+        v.push((ty, "DD P.M.", "15 p.m.", Given { day: Some(15), pm: Some(true), ..g() }, false));
         v.push((ty, "HH24:MI", "17:06", Given { hour24: Some(17), minute: Some(6), ..g() }, false));
         v.push((ty, "HH:MI", "05:30", Given { hour12: Some(5), minute: Some(30), has_hour12_field: true, ..g() }, false));
         v.push((ty, "HH:MI PM", "05:30 pm", Given { hour12: Some(5), minute: Some(30), pm: Some(true), has_hour12_field: true, ..g() }, false));
@@ -90,6 +102,9 @@ pub fn scenarios() -> Vec<Scn> {
     v.push((Ty::Time, "HH24:MI:SS", "17:06:08", Given { hour24: Some(17), minute: Some(6), second: Some(8), ..g() }, true));
     v.push((Ty::Time, "HH:MI", "", Given { has_hour12_field: true, ..g() }, true));
     v.push((Ty::Time, "MI", "5", Given { minute: Some(5), ..g() }, true));
+    v.push((Ty::Time, "MI:SS P.M.", "15:20 p.m.", Given { minute: Some(15), second: Some(20), pm: Some(true), ..g() }, true));
+    v.push((Ty::Time, "AM", "AM", Given { pm: Some(false), ..g() }, true));
+    v.push((Ty::Time, "PM", "pm", Given { pm: Some(true), ..g() }, true));
     v.push((Ty::YM, "YY-MM", "12-05", Given { year: year(12, 9, 9), month: Some(5), ..g() }, true));
     v.push((Ty::YM, "MM", "-05", Given { month: Some(5), negative: true, ..g() }, true));
     v.push((Ty::YM, "Y", "7", Given { year: year(7, 9, 9), ..g() }, true));
